@@ -225,4 +225,7 @@ func TestVerifC17(t *testing.T) {
 		in := c17In{Tag: "random", Ops: ops}
 		out.emit(in, map[string]any{"answers": c17Run(t, in)})
 	}
+	// which block a failed handshake places: the real inbound handler and the real Connect, judged
+	// by the handshake model (impostors, bad signatures, unstaked providers, in every combination)
+	c04Generate(t, out, true)
 }
